@@ -370,6 +370,21 @@ def mutate_text(rng, s):
     return "".join(s)
 
 
+def gen_degenerate(rng):
+    """record lines with a column separator removed or replaced by other white space (also newlines: `\\s` spans
+    lines), a dropped column, a tag glued to the size: the inputs on which the regexes have to backtrack"""
+    out = []
+    for _ in range(rng.randint(1, 3)):
+        r = gen_rec(rng, "narrow")
+        sep = lambda n: rng.choice([" " * (n + 1), "", "\t", "\n", " \n ", "\r\n", "\x0c", "  "]) if rng.random() < 0.5 else " " * (n + 1)
+        size = size_str(r["size"]) if rng.random() < 0.85 else rng.choice(["", "0 B", "0", "B", "10", "0 B 0 B", "1 0 B"])
+        date = r["date"][:4] + "-" + r["date"][4:6] + "-" + r["date"][6:]
+        if rng.random() < 0.1:
+            date = rng.choice([date[:-1], date.replace("-", ":"), date[1:], ""])
+        out.append(r["id"] + sep(r["pad1"]) + r["tag"] + sep(r["pad2"]) + size + sep(r["pad3"]) + date + r["tail"])
+    return "\n".join(out) + rng.choice(["", "\n"])
+
+
 # ---------------------------------------------------------------------------------------------
 # spec oracles (independent of the Lean model: Python sets and the generator's own records)
 # ---------------------------------------------------------------------------------------------
@@ -612,6 +627,8 @@ def correspondence(ctx):
     for _ in range(n_mut):
         base = listing_text(gen_listing(rng, 3)) + "\n"
         cases.append({"kind": "text", "dump": mutate_text(rng, base)})
+    for _ in range(n_mut):
+        cases.append({"kind": "text", "dump": gen_degenerate(rng)})
     for _ in range(n_soup):
         cases.append({"kind": "text", "dump": "".join(rng.choice(SOUP) for _ in range(rng.randint(0, 60)))})
     for _ in range(n_soup // 3):
